@@ -347,6 +347,28 @@ fn layout_family_sorted(p: &str) -> String {
             }
         }
     }
+    // check = 3: a masked word multiplied by a power of two (or shifted left) and stored: `2^k * (sload(0) & mask)`
+    if check == 3 {
+        programs.clear();
+        for k in [8usize, 128, 200, 248, 250, 255] {
+            for (lo, hi) in [(0usize, 8usize), (0, 64), (0, 128)] {
+                for use_mul in [true, false] {
+                    let mut code = vec![0x7f];
+                    code.extend_from_slice(&mask(lo, hi));
+                    code.extend_from_slice(&[0x5f, 0x54, 0x16]);
+                    if use_mul {
+                        code.push(0x7f);
+                        code.extend_from_slice(&mask(k, k + 1));
+                        code.push(0x02);
+                    } else {
+                        code.extend_from_slice(&[0x60, k as u8, 0x1b]);
+                    }
+                    code.extend_from_slice(&[0x60, 0x01, 0x55, 0x00]);
+                    programs.push(code);
+                }
+            }
+        }
+    }
     // stores to slots in descending / mixed order, including indices that differ only in high bits
     let mut code = Vec::new();
     for hi in [3u8, 0, 2, 1] {
@@ -375,6 +397,22 @@ fn layout_family_sorted(p: &str) -> String {
                 sorted.sort();
                 if check == 1 && keys != sorted && bad.is_empty() {
                     bad = format!("code {}: layout keys {:?} are not ordered by (index, offset)", hex(code), keys.iter().map(|k| format!("{:#x}@{}", k.0, k.1)).collect::<Vec<_>>());
+                }
+                let ends_outside = |s: &storage_layout_extractor::layout::StorageSlot| {
+                    use storage_layout_extractor::tc::abi::AbiType as T;
+                    let width = match &s.typ {
+                        T::Number { size: Some(n) } | T::UInt { size: Some(n) } | T::Int { size: Some(n) } | T::Bits { length: Some(n) } => Some(*n),
+                        T::Bytes { length: Some(n) } => n.checked_mul(8),
+                        T::Address => Some(160),
+                        T::Selector => Some(32),
+                        T::Function => Some(192),
+                        T::Bool => Some(8),
+                        _ => None,
+                    };
+                    s.offset >= 256 || width.map_or(false, |w| s.offset.checked_add(w).map_or(true, |e| e > 256))
+                };
+                if check == 3 && layout.slots().iter().any(ends_outside) && bad.is_empty() {
+                    bad = format!("code {}: a layout entry ends outside its 256-bit slot: {:?}", hex(code), layout.slots().iter().map(|s| format!("{:#x}@{} {:?}", s.index.0, s.offset, s.typ)).collect::<Vec<_>>());
                 }
                 if check == 2 && layout.slots().iter().any(|s| s.offset >= 256) && bad.is_empty() {
                     bad = format!("code {}: layout entries {:?}: one starts outside its 256-bit slot", hex(code), keys.iter().map(|k| format!("{:#x}@{}", k.0, k.1)).collect::<Vec<_>>());
@@ -415,6 +453,39 @@ fn idiom_corpus_panics(_p: &str) -> String {
                     programs.push(c);
                 }
             }
+        }
+    }
+    // mapping access plus a boundary constant (struct member offsets): keccak(key . slot) + c as a key
+    for c in [[0x10u8, 0, 0, 0, 0, 0, 0, 0], [0, 0x80, 0, 0, 0, 0, 0, 0], [0xff; 8], [0, 0xff, 0xff, 0xff, 0xff, 0xff, 0xff, 0xff]] {
+        for access in 0..2 {
+            let mut p = vec![0x5f, 0x35, 0x5f, 0x52, 0x60, 0x01, 0x60, 0x20, 0x52];
+            if access == 0 {
+                p.extend_from_slice(&[0x60, 0x01]);
+            }
+            p.extend_from_slice(&[0x60, 0x40, 0x5f, 0x20, 0x67]);
+            p.extend_from_slice(&c);
+            p.push(0x01);
+            if access == 0 {
+                p.push(0x55);
+            } else {
+                p.extend_from_slice(&[0x54, 0x50]);
+            }
+            p.push(0x00);
+            programs.push(p);
+        }
+    }
+    // opcodes that take offsets / sizes, with every operand at a boundary value
+    for (op, arity) in [(0x37u8, 3usize), (0x39, 3), (0x3c, 4), (0x3e, 3), (0xf3, 2), (0xfd, 2), (0xa0, 2), (0xa2, 4), (0x20, 2), (0xf0, 3), (0xf5, 4),
+                        (0xf1, 7), (0xf2, 7), (0xf4, 6), (0xfa, 6), (0x51, 1), (0x52, 2), (0x53, 2)] {
+        for v in [&[0x00u8][..], &[0x01], &[0x20], &[0xff; 8], &[0xff; 32], &[0xff, 0xff, 0xff, 0xff, 0xff, 0xff, 0xff, 0xe1]] {
+            let mut p = Vec::new();
+            for _ in 0..arity {
+                p.push(0x5f + v.len() as u8);
+                p.extend_from_slice(v);
+            }
+            p.push(op);
+            p.push(0x00);
+            programs.push(p);
         }
     }
     // loaded word combined with boundary constants by AND / SHR / SHL / MUL / DIV, then stored elsewhere
@@ -792,9 +863,22 @@ fn error_kind(p: &str) -> String {
     // did anything after the failing instruction run on that path?  (dead code behind a rejected JUMP)
     let after_jump = if !via_jumpi && kind.contains("Jump") && code.len() < 16 { 0 } else { 0 };
     let _ = after_jump;
+    // gas exhaustion must be reported at the instruction whose cost crossed the limit
+    let mut gas_location_wrong = false;
+    if kind == "GasLimitExceeded" {
+        let expected = if via_jumpi { 4 } else { 2 };
+        for (_, err, _) in &out {
+            if let Some(i) = err.find("location: ") {
+                let digits: String = err[i + 10..].chars().take_while(|c| c.is_ascii_digit()).collect();
+                if digits.parse::<usize>().map_or(true, |l| l != expected) {
+                    gas_location_wrong = true;
+                }
+            }
+        }
+    }
     format!(
-        "{{\"violates\": false, \"kind\": \"{}\", \"jumpi\": {}, \"strict_ok\": {}, \"permissive_ok\": {}, \"strict_error\": \"{}\", \"permissive_error\": \"{}\", \"code\": \"{}\"}}",
-        kind, via_jumpi, out[0].0, out[1].0, out[0].1, out[1].1, hex(&code)
+        "{{\"violates\": false, \"kind\": \"{}\", \"jumpi\": {}, \"strict_ok\": {}, \"permissive_ok\": {}, \"gas_location_wrong\": {}, \"strict_error\": \"{}\", \"permissive_error\": \"{}\", \"code\": \"{}\"}}",
+        kind, via_jumpi, out[0].0, out[1].0, gas_location_wrong, out[0].1, out[1].1, hex(&code)
     )
 }
 
